@@ -65,6 +65,11 @@ def jobs(tier):
         out.append(("v2.single.P16384.%s.ref-nolength" % cpath, "job_recheck",
                     dict(prop="C05", version=2, shape="single", P=16384, K=3, dmg=["intact"], cpath=cpath, source="ref",
                          v2_single_length=False)))
+    for source in ("ref", "own"):       # piece-aligned v1 metafiles (padding entries between the files)
+        for shape, tp in (("flat2", False), ("nested3", True)):
+            out.append(("v1.%s.P16384.aligned.%s%s" % (shape, source, ".trailing-pad" if tp else ""), "job_recheck",
+                        dict(prop="C05", version=1, shape=shape, P=16384, K=2 if shape == "flat2" else 1, dmg=["intact"] * len(rk.SHAPES[shape]),
+                             source=source, aligned=True, trailing_pad=tp and source == "ref")))
     out.extend(rk.matrix_rows(tier, "C05"))
     for cpath in ("root", "parent"):     # a v1 file list that is not grouped by directory (as other tools write them)
         out.append(("v1.ungrouped3.P16384.%s.ref" % cpath, "job_recheck",
